@@ -258,3 +258,61 @@ def run_helper_verdict(run, P, callers=FUNCS):
             return None
         solve(g, Env(), on_event, None, keys, R, key_fn=lambda e: bool(e.ts.get('emit')))
     run.require_count(n >= 1 or run.fixture_mode or run.cfg != 'base', 'R-REPLY-ONCE(helpers that reply): no replying helper called in a condition by %s found' % (callers,))
+
+
+def run_handler_bound(run, P, field='handler'):
+    """R-REPLY-ONCE (every method has its slot): the request handlers of a resource live in an array indexed by method code - 1.  Every
+    read `R->handler[code - 1]` sits behind a guard; the guard is not only safe (R-RANGE) but admits EVERY slot: on the path to the read the
+    interval of the code is exactly [1, length of the array].  `code > 0 && code < N` is safe too -- and answers 4.05 to the method with
+    the highest code (iPATCH) although the resource registered a handler for it."""
+    from core.psts import Env, solve, relevance, apply_generic, INF as INF_
+    run.rule('R-REPLY-ONCE')
+    n = 0
+    for f in sorted(P.lib_funcs(), key=lambda f: f['name']):
+        sites = []
+        for b, ev in P.events(f):
+            for x in walk(ev['e']):
+                if isinstance(x, dict) and x.get('k') in ('idx', 'sub'):
+                    base = strip(x.get('b'))
+                    i = strip(x.get('i'))
+                    if isinstance(base, dict) and base.get('k') == 'mem' and base.get('f') == field and base.get('alen') and \
+                       isinstance(i, dict) and i.get('k') == 'bin' and i.get('op') == '-' and const_int(i['r']) == 1:
+                        v = strip(i['l'])
+                        while isinstance(v, dict) and v.get('k') == 'cast':
+                            v = strip(v['e'])
+                        if isinstance(v, dict) and ap(v):
+                            sites.append((ev, ap(v), base['alen'], short(x)))
+        if not sites:
+            continue
+        name = f['name']
+        codes = set(s_[1] for s_ in sites)
+        evs = set(id(s_[0]) for s_ in sites)
+        keys, R = relevance(f, lambda ev: id(ev) in evs, codes)
+        R = set(R) | codes
+        rep = set()
+        best = {}
+
+        def on_event(ev, env, ctx):
+            if id(ev) not in evs:
+                return None
+            for sev, c, alen, txt in sites:
+                if sev is ev:
+                    lo, hi, ex = env.intf(c)
+                    k = (ev['loc'], txt)
+                    cur = best.get(k)
+                    best[k] = (min(lo, cur[0]) if cur else lo, max(hi, cur[1]) if cur else hi, alen, name)
+            return None
+        solve(f, Env(), on_event, None, keys, R, key_fn=lambda e: tuple(e.intf(c)[:2] for c in sorted(codes)))
+        for (loc, txt), (lo, hi, alen, nm) in sorted(best.items()):
+            if lo in (-INF_, INF_) or hi in (-INF_, INF_) or hi > 10 * alen:
+                run.notes.append('R-REPLY-ONCE(handler bound): %s: %s is not guarded in this function (declined)' % (nm, txt))
+                continue
+            n += 1
+            ok = lo == 1 and hi == alen
+            run.instance('R-REPLY-ONCE', '%s: %s is read for every code in [%s, %s] (array of %d)' % (nm, txt, lo, hi, alen))
+            run.oblige('R-REPLY-ONCE', ok, '%s:every-method-slot-reachable' % nm)
+            if not ok:
+                run.violation('R-REPLY-ONCE', nm, loc, 'handler-slot-unreachable',
+                              '`%s` is read only for codes in [%s, %s] although the table has %d slots (codes 1..%d): a request with a method outside that range is answered 4.05 '
+                              'even when the resource registered a handler for it' % (txt, lo, hi, alen, alen), [])
+    run.require_count(n >= 2 or run.fixture_mode or run.cfg != 'base', 'R-REPLY-ONCE(handler bound): fewer than 2 reads of the handler table by code - 1 found')
